@@ -145,6 +145,66 @@ def slew_check(case):
     return Res(v, o=(pi, bool(exp.any())), tr=1)
 
 
+# ------------------------------------------------------------------ arrays longer than every internal block size: events on every block seam
+def longarr_cases(tier, seed):
+    return [(nc, vmode) for nc in (5, 8) for vmode in (0, 1)]
+
+
+def longarr_check(case):
+    """slew and amplitude events placed on, before and after every multiple of every size constant mined from ibldsp.voltage, in a long array"""
+    from mc import thresholds
+    nc, vmode = case
+    ths = [t for t in thresholds.mine([voltage], 1000, 120000)]
+    ns = int(min(max(ths + [65536]) * 2 + 1000, 280000))
+    vps = 1e-8
+    lim = vps * FS
+    V = 1.0 if vmode == 0 else np.linspace(0.9, 1.1, nc)
+    data = np.zeros((nc, ns))
+    exp = np.zeros(ns, dtype=bool)
+    seams = sorted({k * t for t in ths for k in range(1, ns // t + 1) if k * t < ns - 8})
+    last = -10
+    for m in seams:
+        if m - last < 12:
+            continue
+        last = m
+        which = (m // 7) % 3
+        if which == 0:           # a big common step between samples m-1 and m (flag at m-1), undone slowly afterwards
+            data[:, m:m + 4] += (np.array([1.0, 0.75, 0.5, 0.25]) * lim * 3.0)[None, :]
+            exp[m - 1] = True
+        elif which == 1:         # ... between samples m and m+1 (flag at m)
+            data[:, m + 1:m + 5] += (np.array([1.0, 0.75, 0.5, 0.25]) * lim * 3.0)[None, :]
+            exp[m] = True
+        else:                    # an amplitude event on sample m-1 and m: level reached and left in steps below the slew limit? no: a direct jump flags the step too
+            data[:, m - 1:m + 1] = 0.99 * np.max(V)
+            exp[m - 2:m + 1] = True      # step into the event (m-2), the event itself (m-1, m); the step out of it flags m as well
+    sat, mute = voltage.saturation(data.copy(), max_voltage=V, v_per_sec=vps, fs=FS, proportion=0.2, mute_window_samples=7)
+    sat = np.asarray(sat).astype(bool)
+    v = []
+    if sat.shape != exp.shape:
+        return Res([("long-array:shape", "flags have shape %r for %d samples" % (sat.shape, ns))])
+    # reference flags by the definition (per-sample proportion of channels over 98 % of range, or stepping over the slew limit into the next sample)
+    Vc = np.broadcast_to(np.atleast_1d(V)[:, None] if np.ndim(V) else np.array([[V]]), (nc, 1)) if np.ndim(V) else np.full((nc, 1), V)
+    amp = np.mean(np.abs(data) > Vc * 0.98, axis=0) > 0.2
+    slew = np.r_[np.mean(np.abs(np.diff(data, axis=1)) > lim * 0.9, axis=0) > 0.2, False]          # steps are 3 x or 0.75 x the limit: nothing near it
+    ref = amp | slew
+    bad = np.flatnonzero(sat != ref)
+    if bad.size:
+        b = int(bad[0])
+        near = [t for t in ths if min(b % t, t - b % t) <= 2]
+        v.append(("long-array:flags", "nc=%d, %d samples: sample %d is flagged=%s, the proportion rule says %s (%d samples differ; size constants near a multiple: %r)"
+                  % (nc, ns, b, bool(sat[b]), bool(ref[b]), bad.size, near)))
+    mute = np.asarray(mute, dtype=float)
+    # (long arrays go through an FFT convolution: 1e-9 absorbs its rounding)
+    if mute.shape != (ns,) or np.any(mute[ref] > 1e-9) or np.nanmin(mute) < -1e-9 or np.nanmax(mute) > 1 + 1e-9:
+        v.append(("long-array:mute", "nc=%d, %d samples: the mute gain is not 0 on every flagged sample / leaves [0, 1]" % (nc, ns)))
+    far = np.ones(ns, dtype=bool)
+    for i in np.flatnonzero(ref):
+        far[max(0, i - 4):i + 5] = False
+    if mute.shape == (ns,) and np.any(np.abs(mute[far] - 1) > 1e-9):
+        v.append(("long-array:mute-far", "nc=%d, %d samples: the mute gain differs from 1 farther than the taper half-width from any flagged sample" % (nc, ns)))
+    return Res(v, o=(nc, vmode, int(ref.sum())), tr=1)
+
+
 # ------------------------------------------------------------------ both rules at the same sample, on different channels
 def both_cases(tier, seed):
     return [(nc, pi) for nc in (5, 10, 20, 40, 100, 385) for pi in range(len(PROPS))]
@@ -289,7 +349,7 @@ def mute_check(case):
 # ------------------------------------------------------------------ full-scale voltage exposed by the reader
 def range_cases(tier, seed):
     return [("3A", None, None), ("3B2", None, None), ("NP2.1", 0.5, 8192), ("NP2.4b", 0.62, 2048), ("NP2.4", 0.6, 512),
-            ("NPultra", 0.6, 512), ("3B1", None, None)]
+            ("NPultra", 0.6, 512), ("3B1", None, None), ("3B2", 0.6, 1024), ("3A", 0.6, 2048), ("NPultra", 0.62, 2048), ("NP2.1", 0.62, 2048)]
 
 
 def range_check(case):
@@ -301,11 +361,20 @@ def range_check(case):
     else:
         sites = [(0, i // 2, i % 2) for i in range(6)]
     gains = [(synth.GAINS[i % 8], synth.GAINS[(i + 3) % 8]) for i in range(6)]
-    data = np.zeros((4, 7), dtype=np.int16)
-    fbin = synth.write_recording(d, "rng_g0_t0.imec0.ap", data, synth.meta_items(kind, sites, 4, gains=gains, vrange=vr, maxint=mi))
+    maxint_ = mi if mi is not None else (synth.KINDS[kind][4] or 512)
+    # samples whose counts sit at 97.5 % (not saturated) and 98.5 % (saturated) of the ADC's full scale on every channel, quiet samples in between
+    lo_c, hi_c = int(round(0.975 * maxint_)), int(round(0.985 * maxint_))
+    data = np.zeros((12, 7), dtype=np.int16)
+    data[3, :6] = lo_c
+    data[6, :6] = hi_c
+    data[9, :6] = -hi_c
+    fbin = synth.write_recording(d, "rng_g0_t0.imec0.ap", data, synth.meta_items(kind, sites, 12, gains=gains, vrange=vr, maxint=mi))
     sr = spikeglx.Reader(fbin, sort=False)
     try:
         rv = np.asarray(sr.range_volts, dtype=float)
+        volts = np.asarray(sr[:, :6]).T
+        flags, _ = voltage.saturation(volts, max_voltage=sr.range_volts[:6], v_per_sec=NOSLEW, fs=FS, proportion=0.2, mute_window_samples=7)
+        flags = np.flatnonzero(np.asarray(flags)).tolist()
     finally:
         sr.close()
     ref = synth.ref_s2v(kind, "ap", 6, 1, gains=gains, vrange=vr, maxint=mi)
@@ -314,7 +383,10 @@ def range_check(case):
     v = []
     if rv.shape[0] != 7 or not np.allclose(rv[:6], exp, rtol=1e-6, atol=0):
         v.append(("range_volts", "%s: range_volts %r != full-scale range / gain %r" % (kind, rv[:6].tolist(), exp.tolist())))
-    return Res(v, o=kind, tr=1)
+    if flags != [6, 9]:
+        v.append(("range:end-to-end", "%s (max int %d): voltages read through the reader with its range_volts flag samples %r as saturated; the samples at 98.5 %% of full scale are [6, 9] "
+                  "(sample 3 sits at 97.5 %%)" % (kind, maxint_, flags)))
+    return Res(v, o=(kind, mi), tr=2)
 
 
 CHECK = {
@@ -330,6 +402,7 @@ CHECK = {
     "clauses": [
         Clause("amplitude", "every (nc, k over threshold) x boundary placement x proportion x scalar/per-channel range", cases=amp_cases, check=amp_check),
         Clause("slew", "every (nc, k over slew limit) x below/above x proportion", cases=slew_cases, check=slew_check),
+        Clause("long-arrays", "events on every multiple of every size constant mined from ibldsp.voltage in arrays of > 130000 samples", cases=longarr_cases, check=longarr_check),
         Clause("both-rules", "amplitude rule and slew rule met by different channels at the same sample", cases=both_cases, check=both_check),
         Clause("mute", "all flag patterns of length <= 12 x taper widths, four data realisations each", cases=mute_cases, check=mute_check),
         Clause("range", "Reader.range_volts = full-scale / gain for every probe kind", cases=range_cases, check=range_check),
